@@ -141,7 +141,56 @@ func TestVerifReplayC08(t *testing.T) {
 			return
 		}
 	}
-	fmt.Printf("REPLAY-NOT-REPRODUCED bounded search: css components with constant values holding runs of white space keep name and value; %d templates with one constant attribute (values built from character references, &, quotes; both quote kinds) format to an accepted template with the same attribute value, and that to itself\n", n)
+	// static text: what is formatted must generate the same text (blanks before a line end included)
+	textOf := func(tf TemplateFile) string {
+		var sb strings.Builder
+		var walk func(ns []Node)
+		walk = func(ns []Node) {
+			for _, nd := range ns {
+				switch t := nd.(type) {
+				case Text:
+					sb.WriteString(t.Value + "|")
+				case *Text:
+					sb.WriteString(t.Value + "|")
+				case Element:
+					walk(t.Children)
+				case *Element:
+					walk(t.Children)
+				}
+			}
+		}
+		for _, nd := range tf.Nodes {
+			switch t := nd.(type) {
+			case HTMLTemplate:
+				walk(t.Children)
+			case *HTMLTemplate:
+				walk(t.Children)
+			}
+		}
+		return sb.String()
+	}
+	for _, body := range []string{"<pre>column a    column b   \n</pre>", "<div>Total:\t \n\t\t<b>12</b></div>", "<p>a  b</p>", "<span>x \n</span>"} {
+		src := "package p\n\ntempl x() {\n\t" + body + "\n}\n"
+		tf, err := ParseString(src)
+		if err != nil {
+			continue
+		}
+		n++
+		var b bytes.Buffer
+		if err := tf.Write(&b); err != nil {
+			continue
+		}
+		tf2, err := ParseString(b.String())
+		if err != nil {
+			fmt.Printf("REPLAY-CONFIRMED the template %q is formatted to %q, which the parser rejects: %v\n", src, b.String(), err)
+			return
+		}
+		if a, c := textOf(tf), textOf(tf2); a != c {
+			fmt.Printf("REPLAY-CONFIRMED the template %q has the static texts %q; formatted to %q it has %q\n", src, a, b.String(), c)
+			return
+		}
+	}
+	fmt.Printf("REPLAY-NOT-REPRODUCED bounded search: static texts with blanks before a line end keep their bytes; css components with constant values holding runs of white space keep name and value; %d templates with one constant attribute (values built from character references, &, quotes; both quote kinds) format to an accepted template with the same attribute value, and that to itself\n", n)
 }
 `
 
